@@ -4,7 +4,7 @@ for d in "$@"; do
   S=/var/tmp/cs.$$; V=/var/tmp/csv.$$; rm -rf $S $V; mkdir -p $V
   rsync -a --exclude .git /repo/ $S/; cp /verif/known_findings.json /verif/properties.jsonl $V/
   (cd $S && patch -p1 -s < /verif/seeded/$d/patch.diff) || { echo "== $d: PATCH FAILED"; rm -rf $S $V; continue; }
-  out=$(VERIF_REPO=$S VERIF_DIR=$V /verif/bin/verifcheck all --tier quick 2>&1)
+  out=$(VERIF_REPO=$S VERIF_DIR=$V ${VERIFCHECK:-/verif/bin/verifcheck} all --tier quick 2>&1)
   echo "== $d: $(echo "$out" | grep "^VIOLATION" | sed 's/.*property=\(C[0-9]*\).*/\1/' | tr '\n' ' ')"
   echo "$out" | grep -E "^  (VIOLATED|UNDECIDED|ANALYSIS)" | cut -c1-200 | sort -u | head -4
   rm -rf $S $V
